@@ -242,7 +242,10 @@ func (b *ShardBuilder) Write(out io.Writer) error {
 	w.writeTOC(&toc)
 	tocSection.end(w)
 	tocSection.write(w)
-	return w.err
+	if w.err != nil {
+		return w.err
+	}
+	return buffered.Flush()
 }
 
 func (b *ShardBuilder) writeJSON(data any, sec *simpleSection, w *writer) error {
